@@ -950,11 +950,12 @@ fn fn_json<'tcx>(tcx: TyCtxt<'tcx>, did: DefId, kind: DefKind) -> J {
     let mut proms = Vec::new();
     for (pi, pb) in tcx.promoted_mir(did).iter_enumerated() {
         let pt = pb.return_ty();
-        let cid = mir::interpret::GlobalId { instance: ty::Instance::mono(tcx, did), promoted: Some(pi) };
         let generic = tcx.generics_of(did).requires_monomorphization(tcx);
         let val = if generic {
+            // a promoted of a generic body (or of a closure inside one) cannot be evaluated without instantiation
             J::Null
         } else {
+            let cid = mir::interpret::GlobalId { instance: ty::Instance::mono(tcx, did), promoted: Some(pi) };
             match tcx.const_eval_global_id(env, cid, rustc_span::DUMMY_SP) {
                 Ok(v) => const_value_json(tcx, env, pt, v),
                 Err(_) => J::Null,
@@ -1019,6 +1020,7 @@ fn collect<'tcx>(tcx: TyCtxt<'tcx>) -> J {
     let mut consts = Vec::new();
     let mut statics = Vec::new();
     let mut adts = Vec::new();
+    let mut local_adt_dids: Vec<DefId> = Vec::new();
     let mut impls = Vec::new();
     let mut unsafes = Vec::new();
     let mut items = Vec::new();
@@ -1085,6 +1087,7 @@ fn collect<'tcx>(tcx: TyCtxt<'tcx>) -> J {
                 );
             }
             DefKind::Struct | DefKind::Enum | DefKind::Union => {
+                local_adt_dids.push(did);
                 let env = ty::TypingEnv::post_analysis(tcx, did);
                 let def = tcx.adt_def(did);
                 let ident_args = ty::GenericArgs::identity_for_item(tcx, did);
@@ -1261,6 +1264,87 @@ fn collect<'tcx>(tcx: TyCtxt<'tcx>) -> J {
         .set("mir_opt_level", J::UInt(tcx.sess.mir_opt_level() as u128))
         .set("rustc", J::s(option_env!("CFG_VERSION").unwrap_or("nightly").to_string()))
         .set("sources", J::Arr(sources));
+
+    // external (non-std) ADTs reachable from the crate's own types through fields: their definitions come from the
+    // dependency's metadata, so the type-graph rules can walk them instead of trusting a list of names
+    {
+        fn adts_in<'tcx>(t: Ty<'tcx>, out: &mut Vec<DefId>, depth: u32) {
+            if depth > 8 {
+                return;
+            }
+            match t.kind() {
+                ty::Adt(def, args) => {
+                    out.push(def.did());
+                    for a in args.types() {
+                        adts_in(a, out, depth + 1);
+                    }
+                }
+                ty::Ref(_, inner, _) | ty::RawPtr(inner, _) | ty::Slice(inner) | ty::Array(inner, _) => adts_in(*inner, out, depth + 1),
+                ty::Tuple(ts) => {
+                    for e in ts.iter() {
+                        adts_in(e, out, depth + 1);
+                    }
+                }
+                _ => {}
+            }
+        }
+        let mut seen: std::collections::HashSet<DefId> = std::collections::HashSet::new();
+        let mut work: Vec<DefId> = local_adt_dids.clone();
+        let mut ext_done = 0usize;
+        while let Some(did) = work.pop() {
+            if !seen.insert(did) || ext_done > 300 {
+                continue;
+            }
+            let krate_name = tcx.crate_name(did.krate);
+            let is_std = matches!(krate_name.as_str(), "std" | "core" | "alloc");
+            if is_std {
+                continue;
+            }
+            let def = tcx.adt_def(did);
+            let ident_args = ty::GenericArgs::identity_for_item(tcx, did);
+            let mut found = Vec::new();
+            let mut variants = Vec::new();
+            let discrs: Vec<_> = if def.is_enum() { def.discriminants(tcx).collect() } else { vec![] };
+            for (vi, v) in def.variants().iter_enumerated() {
+                let discr = discrs.iter().find(|(i, _)| *i == vi).map(|(_, d)| d.val);
+                let mut fields = Vec::new();
+                for f in v.fields.iter() {
+                    let ft = f.ty(tcx, ident_args);
+                    adts_in(ft, &mut found, 0);
+                    fields.push(
+                        J::obj()
+                            .set("name", J::s(f.name.to_string()))
+                            .set("ty", J::s(ft.to_string()))
+                            .set("tyt", ty_tree(tcx, ft, 0)),
+                    );
+                }
+                variants.push(
+                    J::obj()
+                        .set("name", J::s(v.name.to_string()))
+                        .set("discr", match discr { Some(d) => J::UInt(d), None => J::Null })
+                        .set("fields", J::Arr(fields)),
+                );
+            }
+            for d in found {
+                work.push(d);
+            }
+            if !did.is_local() {
+                ext_done += 1;
+                adts.push(
+                    J::obj()
+                        .set("path", J::s(tcx.def_path_str(did)))
+                        .set("kind", J::s(format!("{:?}", tcx.def_kind(did))))
+                        .set("vis", J::s("external".to_string()))
+                        .set("external", J::Bool(true))
+                        .set("generic", J::Bool(tcx.generics_of(did).requires_monomorphization(tcx)))
+                        .set("freeze", J::Null)
+                        .set("variants", J::Arr(variants))
+                        .set("file", J::s(String::new()))
+                        .set("line", J::UInt(0)),
+                );
+            }
+        }
+    }
 
     J::obj()
         .set("meta", meta)
